@@ -23,7 +23,8 @@ Section Paraboloid.
   Proof. field. assumption. Qed.
 
   Theorem paraboloid_stigmatic :
-    k_std_distance XOps (Fin (-1)) (Fin sg) (Fin 0) (Fin 0) (Fin z0) (Fin x) (Fin y) (Fin Rc) = Fin t1 /\
+    (0 <= t1 ->       (* the mirror lies ahead of the entry plane: otherwise the kernel reports no intersection *)
+     k_std_distance XOps (Fin (-1)) (Fin sg) (Fin 0) (Fin 0) (Fin z0) (Fin x) (Fin y) (Fin Rc) = Fin t1) /\
     on_vertex_sheet Rc (-1) x y zs /\
     (let '(nx, ny, nz) := k_std_normal ROps x y Rc (-1) in
      let '(L', M', N') := k_reflect ROps nx ny nz 0 0 sg in
@@ -32,7 +33,7 @@ Section Paraboloid.
     (sg * Rc < 0 -> 0 < s).
   Proof.
     assert (Hs2 : sg*sg = 1) by (destruct Hsg; subst; ring).
-    split; [apply std_distance_paraboloid_axial; assumption|].
+    split; [intros Hahead; apply std_distance_paraboloid_axial; assumption|].
     split.
     { unfold on_vertex_sheet, on_conic. rewrite parab_rad, sqrt_1. unfold zs, r2. repeat split; [field; assumption|lra|ring]. }
     split.
